@@ -86,6 +86,16 @@ CLAIMED = {
               'undeclared names, no frame array for garbled values.'),
         note='Trusts TLC and the harness text renderer; the exception class for garbled values is not judged.',
         technique='TLA+ spec + TLC model checking; one implementation test per terminal state of the model'),
+    'C09': dict(
+        category='model_checking', design='3/C09',
+        text=('TLC checks the LAS reader design (LasRead.tla: comment/blank-dropping line generator with push-back, section '
+              'dispatch, wrap buffer) against the content for every layout a writer can produce (comments, blank and '
+              'space-only lines anywhere, every wrap split, single-curve wrap) and the first-dot/last-colon field split over '
+              'character classes; every complete layout enumerated by TLC is rendered with concrete typed content '
+              '(paddings, separators, values with colons/dots/spaces/times, unparseable data values) and parsed by the '
+              'real LASRead, which must return the content; plus seeded random contents up to 40 curves x 300 frames.'),
+        note='Trusts TLC and the harness renderer; content pools avoid texts whose typed reading is ambiguous; NULL = -999.25.',
+        technique='TLA+ spec + TLC model checking (lockstep writer/reader); TLC-enumerated layouts replayed on the parser'),
 }
 
 NOT_YET = 'check not built yet in this session; planned per DESIGN.md section 3'
